@@ -11,6 +11,7 @@ import (
 	"math/big"
 	"net/http"
 	"net/http/httptest"
+	"sort"
 	"strings"
 	"sync"
 
@@ -18,9 +19,11 @@ import (
 	"github.com/ChainSafe/sygma-relayer/chains/btc/executor"
 	"github.com/ChainSafe/sygma-relayer/chains/btc/mempool"
 	"github.com/ChainSafe/sygma-relayer/relayer/transfer"
+	"github.com/ChainSafe/sygma-relayer/store"
 	"github.com/btcsuite/btcd/btcutil"
 	"github.com/btcsuite/btcd/chaincfg"
 	"github.com/btcsuite/btcd/wire"
+	"github.com/sygmaprotocol/sygma-core/relayer/proposal"
 )
 
 // scripted mempool: the UTXO list is handed to rawTx in exactly this order (the service's sorting is op `utxos`)
@@ -211,6 +214,49 @@ func c16Serve(us []mempool.Utxo, rate string) *mempool.MempoolAPI {
 	return mempool.NewMempoolAPI(c16Srv.srv.URL)
 }
 
+// in-memory proposal store with scripted faults: value x = status read fails, w = status write fails (reads as missing)
+type c16Store struct {
+	mu sync.Mutex
+	m  map[string]string
+}
+
+func (s *c16Store) key(src, dst uint8, n uint64) string { return fmt.Sprintf("%d.%d.%d", src, dst, n) }
+func (s *c16Store) PropStatus(src, dst uint8, n uint64) (store.PropStatus, error) {
+	s.mu.Lock()
+	defer s.mu.Unlock()
+	switch s.m[s.key(src, dst, n)] {
+	case "x":
+		return store.MissingProp, fmt.Errorf("read %w", errors.New("leveldb: closed"))
+	case "f":
+		return store.FailedProp, nil
+	case "p":
+		return store.PendingProp, nil
+	case "e":
+		return store.ExecutedProp, nil
+	}
+	return store.MissingProp, nil
+}
+func (s *c16Store) StorePropStatus(src, dst uint8, n uint64, st store.PropStatus) error {
+	s.mu.Lock()
+	defer s.mu.Unlock()
+	k := s.key(src, dst, n)
+	if s.m[k] == "w" {
+		return errors.New("write failed")
+	}
+	s.m[k] = map[store.PropStatus]string{store.MissingProp: "m", store.FailedProp: "f", store.PendingProp: "p", store.ExecutedProp: "e"}[st]
+	return nil
+}
+func (s *c16Store) dump() string {
+	s.mu.Lock()
+	defer s.mu.Unlock()
+	ks := []string{}
+	for k, v := range s.m {
+		ks = append(ks, k+"="+v)
+	}
+	sort.Strings(ks)
+	return joinOr(ks, ";")
+}
+
 func c16Exec(mp executor.MempoolAPI, up *c16Uploader) *executor.Executor {
 	return executor.NewExecutor(nil, nil, nil, nil, nil, nil, mp, nil, chaincfg.TestNet3Params, &sync.RWMutex{}, up)
 }
@@ -343,6 +389,77 @@ func init() {
 		d := p.Data.(executor.BtcTransferProposalData)
 		return fmt.Sprintf("%d/%s/%d/%s", d.Amount, hx([]byte(d.Recipient)), d.DepositNonce, hx(d.ResourceId[:1]))
 	}
+	// batch <rate> <cid> <bridge> <store> <utxos> <batches>
+	//   store   = src.dst.nonce=S;…   S: m missing, f failed, p pending, e executed, x status read fails, w status write fails
+	//   batches = batch ! batch …     batch = outcome^proposals   outcome: e/f = what watchExecution records after sending, n = nothing
+	//             proposals = src.dst.nonce,amount,recipient,script;…   (the same deposit may occur several times)
+	// ONE executor and ONE proposal store live across the whole sequence: proposalsForExecution, then rawTx for what it selected.
+	//   =>  per batch (joined by !): err | sel=<indices into the batch>|<tx or err>, each followed by |st=<store afterwards>
+	ops["C16.batch"] = func(a []string) string {
+		st := &c16Store{m: map[string]string{}}
+		for _, it := range items(a[3], ";") {
+			f := strings.SplitN(it, "=", 2)
+			st.m[f[0]] = f[1]
+		}
+		mp := &c16Mempool{rate: a[0], utxos: c16Utxos(a[4])}
+		up := &c16Uploader{cid: string(unhx(a[1]))}
+		res := config.Resource{Address: c16Bridge(strings.Split(a[2], ":")[0]), ResourceID: [32]byte{9}, FeeAmount: big.NewInt(0)}
+		e := executor.NewExecutor(st, nil, nil, nil, nil, nil, mp, map[[32]byte]config.Resource{res.ResourceID: res}, chaincfg.TestNet3Params, &sync.RWMutex{}, up)
+		out := []string{}
+		for _, b := range strings.Split(a[5], "!") {
+			f := strings.SplitN(b, "^", 2)
+			type ent struct {
+				key, rcp string
+				amt      uint64
+				used     bool
+			}
+			ents := []*ent{}
+			ps := []*proposal.Proposal{}
+			for _, it := range items(f[1], ";") {
+				x := strings.Split(it, ",")
+				k := strings.Split(x[0], ".")
+				rc := x[2]
+				if rc == "-" {
+					rc = ""
+				}
+				ents = append(ents, &ent{key: x[0], rcp: rc, amt: u64(x[1])})
+				ps = append(ps, proposal.NewProposal(uint8(u64(k[0])), uint8(u64(k[1])), executor.BtcTransferProposalData{
+					Amount: u64(x[1]), Recipient: rc, DepositNonce: u64(k[2]), ResourceId: res.ResourceID}, "msg", transfer.TransferProposalType))
+			}
+			mp.calls = 0
+			sel, err := e.VerifC16ProposalsForExecution(ps, "msg")
+			if err != nil {
+				out = append(out, "err|st="+st.dump())
+				continue
+			}
+			idx := []string{}
+			for _, p := range sel {
+				key := fmt.Sprintf("%d.%d.%d", p.Source, p.Destination, p.Data.DepositNonce)
+				found := "?"
+				for i, en := range ents {
+					if !en.used && en.key == key && en.amt == p.Data.Amount && en.rcp == p.Data.Recipient {
+						en.used, found = true, itoa(i)
+						break
+					}
+				}
+				idx = append(idx, found)
+			}
+			txs := "err"
+			if len(sel) == 0 {
+				txs = "nothing" // Execute returns before building anything
+			} else if tx, used, err := e.VerifC16RawTx(sel, res); err == nil {
+				txs = strings.ReplaceAll(c16ShowTx(tx, used), "|", "/")
+				switch f[0] {
+				case "e":
+					e.VerifC16StoreProposalsStatus(sel, store.ExecutedProp)
+				case "f":
+					e.VerifC16StoreProposalsStatus(sel, store.FailedProp)
+				}
+			}
+			out = append(out, "sel="+joinOr(idx, ",")+"|"+txs+"|st="+st.dump())
+		}
+		return strings.Join(out, "!")
+	}
 	gens["C16"] = genC16
 }
 
@@ -439,6 +556,7 @@ func genC16(g *G) {
 	r2, s2 := rcp(2)
 	tx := func(i int) string { return fmt.Sprintf("%064x", 0xabc000+i) }
 
+	genC16Batches(g, br, cid, rcp)
 	// --- fee formula
 	for _, rate := range []uint64{0, 1, 4, 5, 6, 9, 10, 99, 100, 1000, 1 << 32, 1<<64 - 1} {
 		for _, io := range [][2]uint64{{0, 0}, {0, 1}, {1, 1}, {1, 2}, {2, 3}, {7, 2}, {1000, 1001}, {1 << 40, 3}} {
@@ -738,6 +856,72 @@ func genC16(g *G) {
 			amt = new(big.Int).SetBytes(g.Bytes(g.Intn(14)))
 		}
 		g.Emit("msg", hx(amt.Bytes()), hx(g.Bytes(g.Intn(40))))
+	}
+}
+
+// batches through ONE executor + ONE store: duplicates of a deposit inside a batch, across batches, after each recorded outcome,
+// with store faults
+func genC16Batches(g *G, br, cid string, rcp func(byte) (string, string)) {
+	r1, s1 := rcp(1)
+	r2, s2 := rcp(2)
+	P := func(key string, amt uint64, which int) string {
+		if which == 2 {
+			return key + "," + utoa(amt) + "," + r2 + "," + s2
+		}
+		return key + "," + utoa(amt) + "," + r1 + "," + s1
+	}
+	big := fmt.Sprintf("%064x,0,900000,1000;%064x,1,800000,1001", 0xabc001, 0xabc001)
+	a, b, c := P("1.2.7", 1000, 1), P("1.2.8", 500, 2), P("3.2.7", 700, 1)
+	for _, bs := range []string{
+		"n^" + a, "n^" + a + ";" + a, "n^" + a + ";" + b + ";" + a, "n^" + a + ";" + a + ";" + a + ";" + b + ";" + b,
+		"n^" + a + ";" + P("1.2.7", 999, 2),          // same deposit, different content (original and its retry)
+		"n^" + a + ";" + c,                            // same nonce, other source domain: a different deposit
+		"e^" + a + ";" + b + "!n^" + a + ";" + b + ";" + c, // executed is final
+		"f^" + a + ";" + a + "!n^" + a + ";" + a,           // failed may be retried, once
+		"n^" + a + "!n^" + a + ";" + b,                     // still pending from the previous batch
+		"e^" + a + "!e^" + b + "!e^" + a + ";" + b + ";" + c + ";" + c,
+	} {
+		for _, st := range []string{"-", "1.2.8=e", "1.2.7=f", "1.2.7=p;1.2.8=m", "1.2.8=x", "3.2.7=w", "1.2.7=w"} {
+			g.Emit("batch", "1", cid, br, st, big, bs)
+		}
+	}
+	for i := 0; i < g.Count(600, 15000); i++ {
+		keys := []string{"1.2.7", "1.2.8", "1.2.9", "3.2.7", "1.4.7"}
+		st := []string{}
+		for _, k := range keys {
+			if g.Intn(3) == 0 {
+				v := []string{"m", "f", "p", "e", "e", "f"}[g.Intn(6)]
+				if g.Intn(25) == 0 {
+					v = []string{"x", "w"}[g.Intn(2)]
+				}
+				st = append(st, k+"="+v)
+			}
+		}
+		nb := 1 + g.Intn(3)
+		bs := []string{}
+		for j := 0; j < nb; j++ {
+			n := 1 + g.Intn(5)
+			ps := []string{}
+			for k := 0; k < n; k++ {
+				key := keys[g.Intn(len(keys))]
+				if len(ps) > 0 && g.Intn(3) == 0 { // a copy of something already in this batch
+					ps = append(ps, ps[g.Intn(len(ps))])
+					continue
+				}
+				amt := []uint64{0, 546, 1000, uint64(g.Intn(50000))}[g.Intn(4)]
+				pr := P(key, amt, 1+g.Intn(2))
+				if g.Intn(30) == 0 {
+					pr = key + "," + utoa(amt) + ",not_an_address,x"
+				}
+				ps = append(ps, pr)
+			}
+			bs = append(bs, []string{"n", "e", "e", "f"}[g.Intn(4)]+"^"+joinOr(ps, ";"))
+		}
+		ut := big
+		if g.Intn(8) == 0 {
+			ut = fmt.Sprintf("%064x,0,%d,1000", 0xabc001, 500+g.Intn(3000))
+		}
+		g.Emit("batch", []string{"1", "5", "7/9"}[g.Intn(3)], cid, br, joinOr(st, ";"), ut, strings.Join(bs, "!"))
 	}
 }
 
